@@ -9,6 +9,7 @@ import (
 	"go/types"
 	"os"
 	"runtime"
+	"runtime/debug"
 	"sort"
 	"strings"
 	"time"
@@ -144,18 +145,7 @@ func maxLenCap(x value) int {
 // checkedIndex: a (possibly symbolic) index into a sequence of length n: out of range is a path of its own (the Go panic)
 func checkedIndex(idx value, n int) int64 {
 	if s, ok := idx.(sym); ok {
-		lt, le := "bvult", "bvule"
-		_ = le
-		if s.sgn {
-			lt = "bvslt"
-		}
-		var inRange string
-		if s.sgn {
-			inRange = fmt.Sprintf("(and (bvsle %s %s) (%s %s %s))", bvLit(s.bits, 0), s.t, lt, s.t, bvLit(s.bits, uint64(n)))
-		} else {
-			inRange = fmt.Sprintf("(%s %s %s)", lt, s.t, bvLit(s.bits, uint64(n)))
-		}
-		if !cur.branch(inRange) {
+		if !cur.branch(inRangeTerm(s, n)) {
 			panic(runtimeErrorString("index out of range"))
 		}
 	}
@@ -180,14 +170,17 @@ func symIndexString(s symstr, idx value) value {
 	return s[checkedIndex(idx, len(s))]
 }
 
-func checkRange(sv sym, n int) {
-	var inRange string
+func inRangeTerm(sv sym, n int) string {
+	// compared at 64 bits, so that a length that does not fit the index type (a 256-entry table indexed by a byte) is handled
+	t := resize(sv.t, sv.bits, sv.sgn, 64)
 	if sv.sgn {
-		inRange = fmt.Sprintf("(and (bvsle %s %s) (bvslt %s %s))", bvLit(sv.bits, 0), sv.t, sv.t, bvLit(sv.bits, uint64(n)))
-	} else {
-		inRange = fmt.Sprintf("(bvult %s %s)", sv.t, bvLit(sv.bits, uint64(n)))
+		return fmt.Sprintf("(and (bvsle %s %s) (bvslt %s %s))", bvLit(64, 0), t, t, bvLit(64, uint64(n)))
 	}
-	if !cur.branch(inRange) {
+	return fmt.Sprintf("(bvult %s %s)", t, bvLit(64, uint64(n)))
+}
+
+func checkRange(sv sym, n int) {
+	if !cur.branch(inRangeTerm(sv, n)) {
 		panic(runtimeErrorString("index out of range"))
 	}
 }
@@ -706,6 +699,7 @@ func (e *Explorer) runPath(i *interpreter, fn *ssa.Function, prefix []decision) 
 	e.depth = 0
 	e.mapChoices = 0
 	e.unknowns = 0
+	e.panicSite = ""
 	e.declaredNow = map[string]bool{}
 	e.solver.send("(push 1)")
 	rec := PathRecord{}
@@ -730,7 +724,10 @@ func (e *Explorer) runPath(i *interpreter, fn *ssa.Function, prefix []decision) 
 				rec.End = "panic:" + x.Error()
 			case runtime.Error:
 				// an error inside the interpreter itself (unexpected dynamic type ...): the construct is not supported
-				rec.End = "unsupported:interpreter: " + clip(x.Error(), 200)
+				rec.End = "unsupported:interpreter: " + clip(x.Error(), 200) + " @ " + clip(e.panicSite, 300)
+				if os.Getenv("GOSYM_DEBUG") != "" {
+					fmt.Fprintf(os.Stderr, "[debug] %v\n%s\n", x, debug.Stack())
+				}
 			case string:
 				rec.End = "unsupported:interpreter: " + clip(x, 200)
 			default:
